@@ -23,11 +23,21 @@ def doc_column(i):
     return "nil" if not i["cfg"] else ("true" if i["insecure"] else "false")
 
 
-def _probe_tls(ctx, vecs):
-    """Binding probe: a recorded vector with ONE observation falsified must be rejected by TLC."""
-    ok = [v for v in vecs if not v["err"] and not v["panic"]]
+def _probe_fail(ctx, msg):
+    """A failed probe is a machinery problem (exit 2) - unless the genuine vectors already showed violations of the
+    property: those are evidence about the code and must be reported (exit 1), the probe result becomes a note."""
+    if ctx.violations:
+        ctx.notes.append("binding probe not conclusive on this (violating) tree: " + msg)
+        return
+    raise vf.Inconclusive(msg)
+
+
+def _probe_tls(ctx, vecs, bad_lines):
+    """Binding probe: a recorded vector that TLC accepted, with ONE observation falsified, must be rejected by TLC
+    with at least that aspect.  Runs after the genuine vectors have been judged and reported."""
+    ok = [v for k, v in enumerate(vecs) if not v["err"] and not v["panic"] and (k + 1) not in bad_lines]
     if not ok:
-        raise vf.Inconclusive("no successful TLS row to probe the binding with")
+        return _probe_fail(ctx, "no accepted TLS row to probe the binding with")
     probes = []
     a = json.loads(json.dumps(ok[0])); a["verify"] = not a["verify"]; probes.append((a, "verify"))
     b = json.loads(json.dumps(ok[1 % len(ok)])); b["untouched"] = False; probes.append((b, "caller-mutated"))
@@ -39,16 +49,15 @@ def _probe_tls(ctx, vecs):
                    name="tlsvec_probe", quiet=True)
     got = {mv["line"]: mv["kinds"] for mv in vf.tlc_printed(t.out, "MONVIOL")}
     if not t.ok or 1 in got or any(k not in got.get(i + 2, []) for i, (_, k) in enumerate(probes)):
-        raise vf.Inconclusive("binding probe failed: falsified TLS vectors were not rejected as expected: %s" % got)
+        _probe_fail(ctx, "binding probe failed: falsified TLS vectors were not rejected with at least the expected aspect: %s" % got)
 
 
-def _probe_auth(ctx, ordered):
-    """Binding probe: a real trace with one token byte changed / an AUTH_RESPONSE moved behind an unapproved
-    class must be rejected by TLC."""
-    # first case that sent a token
-    ids = [e["id"] for e in ordered if e["ev"] == "cli" and e["op"] == 15 and e["token"]]
+def _probe_auth(ctx, ordered, bad_ids):
+    """Binding probe: a real trace that TLC accepted, with one token byte changed / the announced class replaced by an
+    unapproved one, must be rejected by TLC with at least that aspect."""
+    ids = [e["id"] for e in ordered if e["ev"] == "cli" and e["op"] == 15 and e["token"] and e["id"] not in bad_ids]
     if not ids:
-        raise vf.Inconclusive("no AUTH_RESPONSE recorded to probe the binding with")
+        return _probe_fail(ctx, "no accepted AUTH_RESPONSE trace to probe the binding with")
     one = [json.loads(json.dumps(e)) for e in ordered if e["id"] == ids[0]]
     bad = [json.loads(json.dumps(e)) for e in one]
     for e in bad:
@@ -58,7 +67,9 @@ def _probe_auth(ctx, ordered):
     bad2 = [json.loads(json.dumps(e)) for e in one]
     for e in bad2:
         e["id"] = ids[0] + 2000000
-        if e["ev"] == "srv" and e["what"] == "authenticate":
+        if e["ev"] == "case":
+            e["allowed"] = []          # default list: the class below is on nobody's list
+        if e["ev"] == "srv":
             e["class"] = "com.evil.auth.CredentialCollector"
     pp = os.path.join(ctx.tmp, "auth_probe.ndjson")
     vf.write_ndjson(pp, one + bad + bad2)
@@ -67,9 +78,10 @@ def _probe_auth(ctx, ordered):
     got = collections.defaultdict(list)
     for mv in vf.tlc_printed(t.out, "MONVIOL"):
         got[mv["id"]] += mv["kinds"]
-    if not t.ok or got.get(ids[0]) or "token-not-sasl-plain" not in got.get(ids[0] + 1000000, []) or \
+    if not t.ok or [x for x in got.get(ids[0], []) if not x.startswith("drift-")] or \
+            "token-not-sasl-plain" not in got.get(ids[0] + 1000000, []) or \
             "credentials-to-unapproved-class" not in got.get(ids[0] + 2000000, []):
-        raise vf.Inconclusive("binding probe failed: falsified auth traces were not rejected as expected: %s" % dict(got))
+        _probe_fail(ctx, "binding probe failed: falsified auth traces were not rejected with at least the expected aspect: %s" % dict(got))
 
 
 def _flush(ctx, agg):
@@ -118,7 +130,6 @@ def tls_part(ctx, binary):
         vecs += part
         tstates += t.distinct
         ttrans += t.generated
-    _probe_tls(ctx, vecs)
     nviol = 0
     agg = collections.OrderedDict()
     unexpected_err = []
@@ -160,6 +171,7 @@ def tls_part(ctx, binary):
             nviol += 1
             agg.setdefault(key, []).append((what + " [row %s]" % _key(i), dict(vector=v, required=mv["exp"])))
     _flush(ctx, agg)
+    _probe_tls(ctx, vecs, {mv["line"] for mv in mon})
     if unexpected_err:
         ctx.add_drift("%d rows with valid files were refused, e.g. %s: %s" % (
             len(unexpected_err), _key(unexpected_err[0]["in"]), unexpected_err[0]["errtext"]))
@@ -249,7 +261,6 @@ def auth_part(ctx, binary):
     if not t.ok or t.distinct != len(ordered) + 1:
         raise vf.Inconclusive("Trace_Auth failed: %s\n%s" % (t.error or t.violated, t.out[-2000:]))
     mon = vf.tlc_printed(t.out, "MONVIOL")
-    _probe_auth(ctx, ordered)
     nviol = 0
     agg = collections.OrderedDict()
     for mv in mon:
@@ -266,6 +277,7 @@ def auth_part(ctx, binary):
                 kind, rec["kind"], rec["allowed"] or "default list", rec["class"], rec["script"], _key(ev)[:300]),
                 dict(case=rec, events=bycase[mv["id"]])))
     _flush(ctx, agg)
+    _probe_auth(ctx, ordered, {mv["id"] for mv in mon})
     # replay comparison with the machine's outcome (outside the property: drift), and the known crash
     crashes, mism = [], []
     tokens = 0
